@@ -26,7 +26,7 @@ func TestCheck(t *testing.T) {
 		r.Rule("(1) arithmetic: seeded cases (kind, global limit, global burst, sum on record, previous quota, used, request level, global level, instances) " +
 			"from four regimes (new instance / existing within the limit / over-committed after a lowered limit / exactly at the limit) with boundary values " +
 			"(0, 1, limit, limit+-1, 2^31-1) through limiter.VerifCalculateNextQuota; (2) system: histories on the real rate-limiter server (scripted leader, local store): " +
-			"1-12 simulated honest gateway instances (report = previous answer + used/level computed as remote_allocation.go does) reporting one by one, in rounds and concurrently, " +
+			"1-12 simulated honest gateway instances on 1-4 schemas (report = previous answer + used/level computed as remote_allocation.go does; status entries complete, missing for idle schemas, empty, or re-ordered) reporting one by one, in rounds and concurrently, " +
 			"with limit raised/lowered through the cluster handler, instances joining and being reclaimed. Oracle = invariants I1-I4 of the statement (oracle.go). " +
 			"Non-trivial = the clamp/floor region is reached (new instance, sum >= 90% of the limit, or sum above the limit); distinct = hash of the case resp. of the history trace.")
 		r.Assume("an honest instance reports exactly the quota it was last answered; its own quota is part of the sum on record (or it is new, previous quota 0)")
@@ -43,6 +43,7 @@ func TestCheck(t *testing.T) {
 		// enough reclaim steps WERE usable, so that the reclaim/return scenarios are not silently lost.
 		r.Set("histories_abandoned_fraction", float64(r.Counter("histories_abandoned_store_differs_from_model_after_cleanup"))/float64(r.Counter("sys_histories")+1))
 		r.Require(r.Counter("sys_reclaim_steps_usable") >= int64(r.N(40, 1000)), "too few reclaim steps left the store as the model expects (reclamation is broken: see C18); the reclaim scenarios of C07 were not exercised")
+		r.Require(r.Counter("sys_quota_reported_without_status_entry") >= 300, "too few reports that list a held quota without a status entry")
 		r.Require(r.Counter("sys_report_errors") == 0, "reports were refused by the server (harness/server set-up problem)")
 	})
 }
@@ -307,6 +308,7 @@ type reportRec struct {
 	Level    int32  `json:"requestLevel"`
 	Answer   int32  `json:"answer"`
 	Burst    int32  `json:"burst,omitempty"`
+	NoStatus bool   `json:"noStatusEntry,omitempty"` // the report carried the quota held but no status entry for this schema
 }
 
 // buildReport builds the status report the way pkg/flowcontrols/remote/remote_allocation.go does (buildLimitConditions,
@@ -317,7 +319,19 @@ func buildReport(upstream string, w *gw, ss []schema, g *vkit.Rand) (*proxyv1alp
 		Spec:       proxyv1alpha1.RateLimitSpec{UpstreamCluster: upstream, Instance: w.id},
 	}
 	var recs []reportRec
+	// Report shapes. A gateway lists the quota it holds for every schema in Spec; what it says about its usage may be
+	// partial: 0 = a status entry per schema, 1 = no status entry for some schemas it is idle on, 2 = empty status list (idle
+	// on everything this round); the status entries may come in another order than the configurations. All of it is honest:
+	// a schema without a status entry is one the instance has no traffic on (the server reads a missing entry as used 0).
+	shape := 0
+	switch x := g.Intn(10); {
+	case x < 2:
+		shape = 1
+	case x < 3:
+		shape = 2
+	}
 	for _, s := range ss {
+		omit := shape == 2 || (shape == 1 && g.Bool())
 		if g.Chance(0.2) {
 			w.demand[s.Name] = []float64{0, 0.01, 0.05, 0.1, 0.3, 0.6, 1.0, 2.0}[g.Intn(8)]
 		}
@@ -346,13 +360,33 @@ func buildReport(upstream string, w *gw, ss []schema, g *vkit.Rand) (*proxyv1alp
 		} else {
 			used = want // measured against the local limiter; no remote flow control yet => level 0
 		}
+		if omit {
+			used, st.RequestLevel = 0, 0 // idle on this schema this round: nothing to say
+			rec.NoStatus = true
+		}
 		rec.Used, rec.Level = clamp32(used), st.RequestLevel
 		st.LimitItemDetail = detail(s.kind(), clamp32(used), clamp32(used))
 		cond.Spec.LimitItemConfigurations = append(cond.Spec.LimitItemConfigurations, cfg)
-		cond.Status.LimitItemStatuses = append(cond.Status.LimitItemStatuses, st)
+		if !omit {
+			cond.Status.LimitItemStatuses = append(cond.Status.LimitItemStatuses, st)
+		}
 		recs = append(recs, rec)
 	}
+	if n := len(cond.Status.LimitItemStatuses); n > 1 && g.Chance(0.3) {
+		sh := make([]proxyv1alpha1.RateLimitItemStatus, 0, n)
+		for _, idx := range g.Perm(n) {
+			sh = append(sh, cond.Status.LimitItemStatuses[idx])
+		}
+		cond.Status.LimitItemStatuses = sh
+	}
 	return cond, recs
+}
+
+func noStatus(rc reportRec) string {
+	if rc.NoStatus {
+		return " (no status entry)"
+	}
+	return ""
 }
 
 type record struct {
@@ -526,8 +560,11 @@ func (h *history) reportOne(w *gw) {
 	defer func() { h.scenario = "system" }()
 	for _, rc := range recs {
 		s := h.schemaByName(rc.Schema)
-		h.logf("report %s %s: previous=%d used=%d level=%d -> quota=%d burst=%d   (sum on record %d -> %d, limit %d)",
-			w.id, rc.Schema, rc.Previous, rc.Used, rc.Level, rc.Answer, rc.Burst, before.sum[rc.Schema], after.sum[rc.Schema], s.Limit)
+		h.logf("report %s %s: previous=%d used=%d level=%d%s -> quota=%d burst=%d   (sum on record %d -> %d, limit %d)",
+			w.id, rc.Schema, rc.Previous, rc.Used, rc.Level, noStatus(rc), rc.Answer, rc.Burst, before.sum[rc.Schema], after.sum[rc.Schema], s.Limit)
+		if rc.NoStatus && rc.Previous > 0 {
+			h.r.Count("sys_quota_reported_without_status_entry", 1)
+		}
 		cur := before.per[w.id][rc.Schema]
 		h.classify(before, s, cur)
 		ex := map[string]interface{}{"report": rc}
@@ -615,7 +652,10 @@ func (h *history) reportConcurrently(ws []*gw) {
 	}
 	sort.Slice(all, func(a, b int) bool { return all[a].Instance+all[a].Schema < all[b].Instance+all[b].Schema })
 	for _, rc := range all {
-		h.logf("concurrent report %s %s: previous=%d used=%d level=%d -> quota=%d burst=%d", rc.Instance, rc.Schema, rc.Previous, rc.Used, rc.Level, rc.Answer, rc.Burst)
+		h.logf("concurrent report %s %s: previous=%d used=%d level=%d%s -> quota=%d burst=%d", rc.Instance, rc.Schema, rc.Previous, rc.Used, rc.Level, noStatus(rc), rc.Answer, rc.Burst)
+		if rc.NoStatus && rc.Previous > 0 {
+			h.r.Count("sys_quota_reported_without_status_entry", 1)
+		}
 	}
 	for _, s0 := range h.schemas {
 		s := h.schemaByName(s0.Name)
@@ -894,7 +934,7 @@ func system(r *vkit.R) {
 	r.Parallel(n, 16, func(i int, g *vkit.Rand) {
 		h := &history{r: r, g: g, upstream: fmt.Sprintf("up%d", i%7), scenario: "system"}
 		h.srv = bed.NewLimiterServer(bed.LimiterOptions{LeadAll: true, Shards: 1 + i%3})
-		ns := 1 + g.Intn(2)
+		ns := g.PickInt([]int{1, 1, 2, 2, 3, 4})
 		for k := 0; k < ns; k++ {
 			s := schema{Name: fmt.Sprintf("s%d", k), TB: g.Bool()}
 			s.Limit = g.PickI32([]int32{1, 3, 10, 12, 50, 100, 500, 1000, 1000, 3000, 10000, 100000})
